@@ -13,6 +13,8 @@ import traceback
 sys.path.insert(0, os.path.dirname(os.path.abspath(__file__)))
 import core  # noqa: E402
 from core import VERIF, Ctx, outputs_equal  # noqa: E402
+import gentie  # noqa: E402
+from gentie import GenTie  # noqa: E402
 
 
 _RES = {}
@@ -81,8 +83,12 @@ def check_spec(mod, c, real_out):
 
 def run_cases(mod, ctx, driver_ok):
     """evaluate the stream; returns stats"""
-    st = dict(evaluations=0, distinct=set(), tags={}, mismatches=[], specfails=[], samples=[], model_lines=0)
+    st = dict(evaluations=0, distinct=set(), tags={}, mismatches=[], specfails=[], samples=[], model_lines=0,
+              purity_replays=0, gen_lines=0, gen_mismatches=[], gen_functions=set())
     batch = []
+    hist = []          # sample of (real call, first outcome) for the purity replay at the end
+    recent = []        # the last few calls, kept as context for a history-dependent failure
+    gen = GenTie(ctx)
     MP = getattr(mod, "MODEL_POST", None)
     EQ = getattr(mod, "outputs_match", None) or outputs_equal
 
@@ -91,9 +97,16 @@ def run_cases(mod, ctx, driver_ok):
             return
         ops = [c["op"] for c in batch if c.get("op")]
         outs = iter(core.run_driver(ops)) if (driver_ok and ops) else iter([])
+        gen.prepare(batch)
         for c in batch:
             r = eval_real(c["real"])
             st["evaluations"] += 1
+            if not c.get("stateful") and (len(hist) < 4000 or ctx.rng.random() < 0.01):
+                if len(hist) < 4000:
+                    hist.append((c["real"], r, c.get("tag", "")))
+                else:
+                    hist[ctx.rng.randrange(len(hist))] = (c["real"], r, c.get("tag", ""))
+            gen.compare(c, r, st)
             tag = c.get("tag", "")
             st["tags"][tag] = st["tags"].get(tag, 0) + 1
             if not c.get("trivial"):
@@ -118,11 +131,41 @@ def run_cases(mod, ctx, driver_ok):
                 st["samples"].append(dict(op=c.get("op"), real=c["real"], got=r, model=m, expected=exp, tag=tag))
         batch.clear()
 
+    import adapters
+    rate = getattr(mod, "INTERFERENCE_RATE", 0.03) * (3 if (ctx.thorough or ctx.escalate) else 1)
     for c in mod.cases(ctx):
         batch.append(c)
+        real = c["real"]
+        if (rate and real[0].startswith("pyModeS.") and len(real) == 2 and len(real[1]) >= 1 and isinstance(real[1][0], str)
+                and len(real[1][0]) in (14, 28) and (c.get("expect") is not None or c.get("pred") is not None or c.get("op"))
+                and ctx.rng.random() < rate):
+            # interference: the same decoder call after two unrelated library calls on this frame or a one-digit neighbour
+            c2 = dict(c)
+            c2["real"] = ("h:adapters.after", [adapters.make_prelude(ctx.rng, real[1][0]), real[0], list(real[1])])
+            c2["tag"] = "interference:" + c.get("tag", "")
+            c2["stateful"] = True
+            batch.append(c2)
         if len(batch) >= 20000:
             flush()
     flush()
+    # ---- purity replay: the same call, made again later in a different order, must give the same outcome
+    # (every property pins the value as a function of the input alone: caches keyed too coarsely, tables filled
+    # lazily in call order, results aliased with internal state all show up here)
+    n = min(len(hist), 3000 if ctx.thorough or ctx.escalate else 600)
+    if n and not getattr(mod, "NO_PURITY_REPLAY", False):
+        sample = ctx.rng.sample(hist, n)
+        for i, (real, first, tag) in enumerate(sample):
+            r = eval_real(real)
+            st["purity_replays"] += 1
+            if not EQ(r, first) and not outputs_equal(r, first):
+                st["specfails"].append(dict(
+                    kind="spec", op=None, real=real, got=r, model=None, expected=first, spec_ok=False,
+                    tag="purity-replay:" + tag, expect=first,
+                    info="history-dependent: this very call returned %r earlier in this run and %r when repeated later; "
+                         "re-run `./check %s --tier %s` with VERIF_SEED=%d to reproduce; calls just before: %s" % (
+                             first, r, ctx.prop, ctx.tier, ctx.seed,
+                             json.dumps([x[0] for x in sample[max(0, i - 5):i]], default=str)[:1500])))
+    gen.finish(st)
     return st
 
 
@@ -173,6 +216,41 @@ def check(prop, tier, seed, t0, no_build=False):
                 broken.append("theorem modules failed to build: " + tail(out))
         else:
             ok_thm = True
+        # ---- source-generated model: regenerate from the working tree, rebuild its driver and the tie theorems
+        tie_modules = list(getattr(mod, "TIE_MODULES", []))
+        tie = dict(regenerated=False, driver=False, modules=tie_modules, theorems=[], checked=0, broken=[])
+        if not no_build:
+            ok_gen, gmsg, gstatus = gentie.regenerate()
+            tie["regenerated"] = ok_gen
+            tie["translator"] = gmsg
+            if ok_gen:
+                tie["functions_translated"] = len(gstatus.get("translated", []))
+                tie["functions_skipped"] = gstatus.get("skipped", {})
+                ok_gd, out = core.lake_build(["gendriver"])
+                tie["driver"] = ok_gd
+                if not ok_gd:
+                    tie["broken"].append("generated model does not compile: " + tail(out, 300))
+                if tie_modules:
+                    ok_tie, out = core.lake_build(tie_modules)
+                    if ok_tie:
+                        hits_t = core.grep_forbidden(tie_modules)
+                        n_t, ok_t, problems_t, names_t = core.audit_axioms(tie_modules, suffix="_tie")
+                        tie["theorems"], tie["checked"] = names_t, ok_t
+                        tie["broken"] += problems_t + (["forbidden construct: " + "; ".join(hits_t[:3])] if hits_t else [])
+                    else:
+                        tie["broken"].append("tie theorems (generated definition = hand model) no longer check: " + tail(out, 400))
+            else:
+                tie["broken"].append("translator failed: " + gmsg)
+        else:
+            tie["driver"] = os.path.exists(gentie.GENDRIVER)
+            tie["regenerated"] = True
+        ctx.gen_ok = tie["driver"] and tie["regenerated"]
+        ctx.tie = tie
+        if tie["broken"]:
+            # not a broken obligation of the property: the hand-written model stays tied by the correspondence check,
+            # which is escalated; the evidence says which generated-model obligations are open
+            ctx.escalate = True
+            ctx.notes.append("generated-model tie degraded (generators escalated): " + " | ".join(tie["broken"])[:600])
         hits = core.grep_forbidden(modules)
         if hits:
             broken.append("forbidden construct: " + "; ".join(hits[:5]))
@@ -237,8 +315,12 @@ def check(prop, tier, seed, t0, no_build=False):
         lines.append("VIOLATION property=%s replay=%s no-failing-input-found" % (prop, replay_path))
         exit_code = 1
 
-    obligations = nthm + len(getattr(mod, "EXTRA_OBLIGATIONS", []))
-    discharged = nok if not broken else min(nok, max(0, nthm - 1))
+    n_tie = len(ctx.tie.get("theorems", []))
+    obligations = nthm + n_tie + len(getattr(mod, "EXTRA_OBLIGATIONS", []))
+    discharged = (nok if not broken else min(nok, max(0, nthm - 1))) + int(ctx.tie.get("checked", 0))
+    if st.get("gen_mismatch_count"):
+        ctx.notes.append("generated model and Python disagree on %d calls (translator / primitive semantics, see "
+                         "generated_model.disagreement_samples)" % st["gen_mismatch_count"])
     ev = dict(
         property_id=prop, tier=tier, seed=seed, level="proof",
         coverage=dict(
@@ -246,7 +328,7 @@ def check(prop, tier, seed, t0, no_build=False):
             checker_cmd="cd lean && lake build %s && lake env lean <#print axioms for every theorem>%s" % (
                 " ".join(modules), " && lake env leanchecker " + " ".join(modules) if tier == "thorough" else ""),
             trusted_base=core.TRUSTED_BASE + list(getattr(mod, "TRUSTED_EXTRA", [])),
-            theorems=names,
+            theorems=names + ["tie: " + t for t in ctx.tie.get("theorems", [])],
             evaluations=st["evaluations"], distinct_nontrivial=len(st["distinct"]),
             model_lines_compared=st["model_lines"],
             rule=getattr(mod, "RULE", "cases generated by props/%s.py; non-trivial = not marked trivial (reject branch); distinct by (op, real call)" % prop),
@@ -254,6 +336,14 @@ def check(prop, tier, seed, t0, no_build=False):
             exhaustive=bool(getattr(mod, "EXHAUSTIVE", False)),
             correspondence_disagreements=len(st["mismatches"]), spec_failures=len(st["specfails"]),
             known_findings_seen=sorted(known_hits.keys()), broken_obligations=broken, escalated=ctx.escalate,
+            purity_replays=st["purity_replays"],
+            generated_model=dict(
+                translator="harness/py2lean.py (regenerated from the working tree on this run: %s)" % ctx.tie.get("regenerated"),
+                translator_summary=ctx.tie.get("translator"),
+                tie_modules=ctx.tie.get("modules"), tie_theorems=ctx.tie.get("theorems"),
+                tie_theorems_checked=ctx.tie.get("checked"), tie_open=ctx.tie.get("broken"),
+                functions_compared=st["gen_functions"], lines_compared=st["gen_lines"],
+                disagreements=st.get("gen_mismatch_count", 0), disagreement_samples=st["gen_mismatches"][:5]),
             notes=ctx.notes,
             **({"anchor_code_coverage": code_cov} if code_cov else {}),
         ),
